@@ -23,8 +23,11 @@ import (
 //	held      during a cooldown, with the cleanup goroutine HELD between "recorded the pending change" and
 //	          "parked in cond.Wait" until the timer has fired  (the window of finding F1)
 //
-// script line: reclaim <cooldownMs> <commit|close> <window>      result: size=<n> backlog=<n>
-func reclaimOne(cooldownMs int, event, window string) string {
+// script line: reclaim <cooldownMs> <commit|close> <window> [parked]     result: size=<n> backlog=<n>
+// `parked` further consumers have committed everything and sit in a blocking Get at the end of the buffer, i.e.
+// they wait on the same condition variable as the cleanup goroutine (a wake-up meant for the cleaner must not be
+// consumed by one of them).
+func reclaimOne(cooldownMs int, event, window string, parked int) string {
 	b := new(bigbuff.Buffer)
 	defer func() { go b.Close() }()
 	cooldown := time.Duration(cooldownMs) * time.Millisecond
@@ -45,6 +48,25 @@ func reclaimOne(cooldownMs int, event, window string) string {
 	for i := 0; i < 3; i++ {
 		fast.Get(ctx)
 		slow.Get(ctx)
+	}
+	pctx, pcancel := context.WithCancel(ctx)
+	defer pcancel()
+	var parkedCs []bigbuff.Consumer
+	for i := 0; i < parked; i++ {
+		p, _ := b.NewConsumer()
+		parkedCs = append(parkedCs, p)
+		for k := 0; k < 3; k++ {
+			p.Get(ctx)
+		}
+		p.Commit()
+		go func() {
+			if _, err := p.Get(pctx); err == nil {
+				p.Commit()
+			}
+		}()
+	}
+	if parked > 0 {
+		time.Sleep(2 * time.Millisecond) // let them park
 	}
 	fast.Commit()
 	// the prefix is now held by `slow` (3 uncommitted reads); let the initial default cooldown (10ms) and any
@@ -103,6 +125,10 @@ func reclaimOne(cooldownMs int, event, window string) string {
 		time.Sleep(time.Millisecond)
 		size = b.Size()
 	}
+	pcancel()
+	for _, p := range parkedCs {
+		go p.Close()
+	}
 	fast.Close()
 	slow.Rollback()
 	slow.Close()
@@ -113,7 +139,9 @@ func execCleanGate(t *trace, script []string) {
 	for _, line := range script {
 		f := strings.Fields(line)
 		if len(f) == 4 && f[0] == "reclaim" {
-			t.Line(line, reclaimOne(atoi(f[1]), f[2], f[3]))
+			t.Line(line, reclaimOne(atoi(f[1]), f[2], f[3], 0))
+		} else if len(f) == 5 && f[0] == "reclaim" {
+			t.Line(line, reclaimOne(atoi(f[1]), f[2], f[3], atoi(f[4])))
 		}
 	}
 }
@@ -127,6 +155,9 @@ func genCleanGate(r *rng.R, tier string, i int) []string {
 					continue
 				}
 				s = append(s, fmt.Sprintf("reclaim %d %s %s", cd, e, w))
+				if w != "held" {
+					s = append(s, fmt.Sprintf("reclaim %d %s %s %d", cd, e, w, 1+r.Intn(4)))
+				}
 			}
 		}
 	}
